@@ -96,39 +96,46 @@ var fnameVariants = []struct {
 	id      string
 	fields  string
 	methods string
+	dst     string // destination member name, "" = Name
 }{
-	{"exact", "Name string", ""},
-	{"lower", "name string", ""},
-	{"upper", "NAME string", ""},
-	{"prefix", "Nam string", ""},
-	{"getter", "n string", "func (s *T) Name() string { return s.n }"},
-	{"getterval", "n string", "func (s T) Name() string { return s.n }"},
-	{"lgetter", "n string", "func (s *T) name() string { return s.n }"},
-	{"both", "Name string", "func (s *T) GetName() string { return s.Name }"},
-	{"fieldAndLowerGetter", "Name string", "func (s *T) name() string { return \"g\" }"},
-	{"lowerFieldAndGetter", "name string", "func (s *T) Name() string { return \"g\" }"},
-	{"twoCaseFitFirst", "Name string\n\tname int", ""},
-	{"twoCaseFitSecond", "name int\n\tName string", ""},
-	{"twoCaseBothFit", "name string\n\tName string", ""},
-	{"wrongType", "Name int", ""},
-	{"wrongTypeGetterFits", "Name int", "func (s *T) NAME() string { return \"g\" }"},
-	{"getterErr", "n string", "func (s *T) Name() (string, error) { return s.n, nil }"},
-	{"getterArg", "n string", "func (s *T) Name(i int) string { return s.n }"},
-	{"getterWrongType", "Name string", "func (s *T) NAME() int { return 1 }"},
-	{"embedded", "Emb", ""},
-	{"none", "Other string", ""},
+	{"exact", "Name string", "", ""},
+	{"lower", "name string", "", ""},
+	{"upper", "NAME string", "", ""},
+	{"prefix", "Nam string", "", ""},
+	{"getter", "n string", "func (s *T) Name() string { return s.n }", ""},
+	{"getterval", "n string", "func (s T) Name() string { return s.n }", ""},
+	{"lgetter", "n string", "func (s *T) name() string { return s.n }", ""},
+	{"both", "Name string", "func (s *T) GetName() string { return s.Name }", ""},
+	{"fieldAndLowerGetter", "Name string", "func (s *T) name() string { return \"g\" }", ""},
+	{"lowerFieldAndGetter", "name string", "func (s *T) Name() string { return \"g\" }", ""},
+	{"twoCaseFitFirst", "Name string\n\tname int", "", ""},
+	{"twoCaseFitSecond", "name int\n\tName string", "", ""},
+	{"twoCaseBothFit", "name string\n\tName string", "", ""},
+	{"wrongType", "Name int", "", ""},
+	{"wrongTypeGetterFits", "Name int", "func (s *T) NAME() string { return \"g\" }", ""},
+	{"getterErr", "n string", "func (s *T) Name() (string, error) { return s.n, nil }", ""},
+	{"getterArg", "n string", "func (s *T) Name(i int) string { return s.n }", ""},
+	{"getterWrongType", "Name string", "func (s *T) NAME() int { return 1 }", ""},
+	{"embedded", "Emb", "", ""},
+	{"none", "Other string", "", ""},
 	// :stringer candidates (destination Name string): value / pointer receiver String(), offered by field or by getter
-	{"strFieldStatus", "Name Status", ""},
-	{"strFieldPStatus", "Name PStatus", ""},
-	{"strGetterStatus", "n Status", "func (s *T) Name() Status { return s.n }"},
-	{"strGetterPStatus", "n PStatus", "func (s *T) Name() PStatus { return s.n }"},
-	{"strGetterPtrPStatus", "n PStatus", "func (s *T) Name() *PStatus { return &s.n }"},
+	{"strFieldStatus", "Name Status", "", ""},
+	{"strFieldPStatus", "Name PStatus", "", ""},
+	{"strGetterStatus", "n Status", "func (s *T) Name() Status { return s.n }", ""},
+	{"strGetterPStatus", "n PStatus", "func (s *T) Name() PStatus { return s.n }", ""},
+	{"strGetterPtrPStatus", "n PStatus", "func (s *T) Name() *PStatus { return &s.n }", ""},
 	// String() returning a DEFINED string type: not a fmt.Stringer, :stringer must not pick it up
-	{"strFieldLStatus", "Name LStatus", ""},
-	{"strGetterLStatus", "n LStatus", "func (s *T) Name() LStatus { return s.n }"},
+	{"strFieldLStatus", "Name LStatus", "", ""},
+	{"strGetterLStatus", "n LStatus", "func (s *T) Name() LStatus { return s.n }", ""},
 	// getter-shaped methods PROMOTED from an embedded type (exported / unexported): the struct itself declares no member Name
-	{"embeddedGetter", "EmbG", ""},
-	{"embeddedLowerGetter", "EmbL", ""},
+	{"embeddedGetter", "EmbG", "", ""},
+	{"embeddedLowerGetter", "EmbL", "", ""},
+	// names that are equal under Unicode case folding but differ in UTF-8 LENGTH (round 5, C02-m10): sharp s
+	// (U+00DF, 2 bytes / U+1E9E, 3 bytes) and the Kelvin sign (U+212A, 3 bytes / K)
+	{"foldSharpS", "GR\u00D6\u1E9EE string", "", "Gr\u00F6\u00DFe"},
+	{"foldSharpSGetter", "n string", "func (s *T) GR\u00D6\u1E9EE() string { return s.n }", "Gr\u00F6\u00DFe"},
+	{"foldKelvin", "\u212Aind string", "", "Kind"},
+	{"foldKelvinRev", "Kind string", "", "\u212Aind"},
 }
 
 // decoyInterface is a second converter interface that carries every interface-level
@@ -160,15 +167,19 @@ func familyFName(thorough bool) []*scen.Cell {
 					tog := append([]int(nil), d...)
 					files := map[string]string{}
 					srcT := "S"
+					dstName := v.dst
+					if dstName == "" {
+						dstName = "Name"
+					}
 					body := "type Emb struct{ Name string }\n\ntype EmbG struct{ n string }\n\nfunc (e EmbG) Name() string { return e.n }\n\ntype EmbL struct{ n string }\n\nfunc (e EmbL) name() string { return e.n }\n\ntype Label string\n\ntype LStatus int\n\nfunc (s LStatus) String() Label { return \"l\" }\n\ntype Status int\n\nfunc (s Status) String() string { return \"status\" }\n\ntype PStatus int\n\nfunc (s *PStatus) String() string { return \"pstatus\" }\n\ntype T struct {\n\t" + v.fields + "\n}\n\n" + v.methods + "\n"
 					var decls string
 					if imp == 1 {
 						// the source type lives in a sub-package of the cell
 						files["sub/sub.go"] = "package sub\n\n" + body
 						srcT = "sub.T"
-						decls = "type D struct {\n\tName string\n}\n\n" + decoyInterface
+						decls = "type D struct {\n\t" + dstName + " string\n}\n\n" + decoyInterface
 					} else {
-						decls = strings.ReplaceAll(body, "T", "S") + "\ntype D struct {\n\tName string\n}\n"
+						decls = strings.ReplaceAll(body, "T", "S") + "\ntype D struct {\n\t" + dstName + " string\n}\n"
 						decls += "\n" + decoyInterface
 					}
 					if srcPtr == 1 {
@@ -420,6 +431,14 @@ type Emb struct{ E int }
 
 type AA struct{ A int }
 
+// methods of an ADDITIONAL argument's type (round 5: statement coverage showed that no cell walked a getter chain from $n)
+func (a AA) G() int            { return a.A + 10 }
+func (a *AA) PG() int          { return a.A + 20 }
+func (a AA) GE() (int, error)  { return a.A + 30, nil }
+func (a AA) GAA() AA           { return AA{A: a.A + 40} }
+func (a AA) Two() (int, int)   { return 1, 2 }
+func (a AA) Arg(i int) int     { return i }
+
 type S struct {
 	A int
 	B string
@@ -462,7 +481,8 @@ func Any2I(v interface{}) int {
 `
 
 var f4Dst = []string{"X", "Y", "N.A", "M.A", "Q.A", "N", "Zz", "x"}
-var f4Src = []string{"A", "N.A", "G()", "GN().A", "P.A", "E", "Emb.E", "GE()", "B", "g", "Zz", "$1.A", "$2", "$3.A", "$1.G()", "$0", "$9", "$2.A", "V()", "GP().A", "a", "N", "$1.N", "GEN().A", "P", "GN().PA()", "N.PA()", "Lab()"}
+var f4Src = []string{"A", "N.A", "G()", "GN().A", "P.A", "E", "Emb.E", "GE()", "B", "g", "Zz", "$1.A", "$2", "$3.A", "$1.G()", "$0", "$9", "$2.A", "V()", "GP().A", "a", "N", "$1.N", "GEN().A", "P", "GN().PA()", "N.PA()", "Lab()",
+	"$3.G()", "$3.PG()", "$3.GE()", "$3.GAA().A", "$3.GAA().PG()", "$3.Two()", "$3.Arg()", "$3.G", "$3.A()", "$4.X", "$4.y", "$4.Y()", "$3.GE().A"}
 var f4Conv = []string{"I2I", "P2I", "I2IE", "I2S", "N2N", "ext.Itoa", "Other", "Missing", "PT2I", "Any2I", "Vsum", "ext.hidden"}
 
 type f4Meta struct {
@@ -486,7 +506,7 @@ func f4Cell(id, kind string, notes []string, args, err, style, caseOff int, extr
 	ns = append(ns, notes...)
 	sig := "Conv(*S"
 	if args == 1 {
-		sig += ", int, AA"
+		sig += ", int, AA, ext.Inner"
 	}
 	sig += ") "
 	if err == 1 {
@@ -750,7 +770,7 @@ func f5Cell(m f5Meta) *scen.Cell {
 	}
 	sig := "Conv(" + st
 	if m.Args == 1 {
-		sig += ", int, AA"
+		sig += ", int, AA, ext.Inner"
 	}
 	sig += ") "
 	if m.MErr == 1 {
